@@ -95,7 +95,7 @@ check("C04",
 check("C03",
       "Rendered operands are modelled as (logical operand, addressing mode) pairs exactly as Instruction.render() pairs them (Model/Static.v render_ops, tied to the token text on every run), their meaning by place_of/op_read/op_write (README addressing rules), the IL by Model/Lift.v + Model/IL.v. "
       "Coq theorems: for each of the six internal addressing modes, every n and every memory the address expression evaluates to 0x100000 + (base+n) mod 256 and reads exactly the addressing registers the mode names; reading an internal operand of width 1-3 yields the little-endian content of the denoted cell and reads exactly addressing registers + the w bytes, writes nothing, changes no register; "
-      "writing one reads only the addressing registers, writes exactly the w denoted bytes with the value's bytes and leaves every other byte and register alone; the mode render() shows for an operand is the mode the default lift uses (both Instruction._addressing_modes). "
+      "writing one reads only the addressing registers, writes exactly the w denoted bytes with the value's bytes and leaves every other byte and register alone; the mode render() shows for an operand is the mode the default lift uses (both Instruction._addressing_modes). Counted runs for every count: MVL/MVLD (m),(n) x 16 prefix choices, I = 0..65535, read as data exactly the addressing registers and the I source bytes and write exactly the I destination bytes of the documented access set, in run order (loop induction carrying the access logs). "
       "Every run: documented access sets (den_access, extracted) vs the bytes the Python emulator reads/writes through the Memory callbacks, for all encodings x random BP/PX/PY/pointers/I.",
       "Trusted: Coq kernel, extraction, static_cmd.py token parser, exec_cmd.py access recorder. Modelled not verified: render methods, lifts, evaluator. Partial: operand-level theorems cover internal-memory operands (the BP/PX/PY modes the property singles out); pointer operands, counted runs and the instruction-specific lifts (MVL, multi-byte, CMP, TEST, EX) are decided by the access-set comparison on the implementation. Known findings: EXL single cell, counted runs leaving internal memory, BP/PX/PY aliasing; three render/lift disagreements fixed (EX, MVL, JP (n) prefix modes).",
       "Coq proof (symbolic evaluation of operand IL, lia) + render-text, access-log and documented-access-set correspondence vs the Python lifter/emulator",
